@@ -106,6 +106,36 @@ pub fn disarm() {
         p.arm = None;
     });
 }
+/// Suspend / resume fault delivery and tick counting (the harness's own handling of elements
+/// must never be the place where an armed fault fires).
+pub fn pause() {
+    P.with(|p| p.enabled = false);
+}
+pub fn resume() {
+    P.with(|p| {
+        if p.arm.is_some() {
+            p.enabled = true;
+        }
+    });
+}
+/// Arm a single-shot fault `k` ticks from now, delivered only between `resume()` and `pause()`.
+pub fn arm_paused(k: u64) {
+    P.with(|p| {
+        p.enabled = false;
+        p.count = 0;
+        p.arm = Some(k.max(1));
+        p.fired = None;
+        p.recording = false;
+        p.trace.clear();
+    });
+}
+/// Run `f` (a call into the code under test) with fault delivery on.
+pub fn catch_live<R>(f: impl FnOnce() -> R) -> Caught<R> {
+    resume();
+    let r = catch(f);
+    pause();
+    r
+}
 pub fn ticks() -> u64 {
     P.with(|p| p.count)
 }
